@@ -19,6 +19,8 @@ PALETTE = [
     "RESID:AA0037", "GNO:G59626AS", "+15.995", "-17.027", "15.995", "1", "-2", "+1.0", "U:+15.995", "M:-18.01",
     "Formula:C2H3NO", "Formula:[13C2]C-2H3", "Formula:C12H20O2[15N1]", "Glycan:HexNAc2Hex3", "Glycan:Hex", "Obs:+17.05", "INFO:any text here",
     "Oxidation#g1", "#g1", "+15.99#g1(0.5)", "Oxidation|INFO:x", "Phospho|+79.966", "U:Phospho#s1(0.9)|INFO:y",
+    # two sibling bracket groups inside one modification value (ProForma spec 4.2.9 example; appended so the indices above stay)
+    "Formula:[13C2][12C-2]H2N", "Formula:[13C6]H12O6[12C-4]",
 ]
 STATIC = ["[Carbamidomethyl]@C", "[+57.021]@C,K", "[Oxidation][+1.5]@M", "[TMT6plex]@K,N-Term", "[Formula:C2]@C-Term"]
 ISOTOPE = ["13C", "15N", "D", "T", "18O", "17O", "34S", "2H"]
